@@ -106,6 +106,9 @@ struct MoveOut {
     same_as_mut: bool,
     map0: PMap,
     map: PMap,
+    /// the moved image drawn on two BOUNDED native-fill targets (box, picture): one cuts the image at its left / top
+    /// side, the other at its right / bottom side
+    cut: Vec<(Rectangle, PMap)>,
 }
 
 fn expected_of(e: ImageRawError) -> usize {
@@ -185,7 +188,16 @@ where
     let mut t1 = R1::<T::Color>::unbounded();
     img.draw(&mut t0).unwrap();
     moved.draw(&mut t1).unwrap();
-    MoveOut { bb0: img.bounding_box(), bb: moved.bounding_box(), same_as_mut: m == moved, map0: t0.rec.map, map: t1.rec.map }
+    let mb = moved.bounding_box();
+    let (w3, h3) = ((mb.size.width / 3) as i32, (mb.size.height / 3) as i32);
+    let mut cut = Vec::new();
+    for tl in [mb.top_left + Point::new(w3 + 1, h3 + 1), mb.top_left - Point::new(w3 + 1, h3 + 1)] {
+        let b = Rectangle::new(tl, mb.size);
+        let mut t = R2::<T::Color>::new(b);
+        moved.draw(&mut t).unwrap();
+        cut.push((b, t.rec.map));
+    }
+    MoveOut { bb0: img.bounding_box(), bb: moved.bounding_box(), same_as_mut: m == moved, map0: t0.rec.map, map: t1.rec.map, cut }
 }
 
 macro_rules! with_drawable {
@@ -802,6 +814,16 @@ impl Module for M {
                     // C07: the translated image draws the same picture shifted by d ...
                     let shifted: PMap = out.map0.iter().map(|((y, x), c)| ((y + d.y, x + d.x), *c)).collect();
                     ctx.expect(out.map == shifted, "C07:image-translate-picture", || format!("{} got {} want {}", op, fmt_map(&out.map), fmt_map(&shifted)));
+                    // ... also on a bounded target that cuts the moved image (at the left / top, at the right / bottom):
+                    // what is inside the target is the shifted picture (seeded change C07-r3-2 drew "the visible part"
+                    // at the wrong place when the image was cut at its left or top side)
+                    for (b, m) in &out.cut {
+                        let want: PMap = shifted.iter().filter(|((y, x), _)| b.contains(Point::new(*x, *y))).map(|(k, v)| (*k, *v)).collect();
+                        if want.len() != shifted.len() && !want.is_empty() {
+                            ctx.count("move:cut-by-a-bounded-target");
+                        }
+                        ctx.expect(*m == want, "C07:image-translate-picture-on-bounded-target", || format!("{} box {} got {} want {}", op, fmt_rect(b), fmt_map(m), fmt_map(&want)));
+                    }
                     // ... its bounding box shifts by d ...
                     let want_bb = Rectangle::new(out.bb0.top_left + d, out.bb0.size);
                     ctx.expect(out.bb == want_bb, "C07:image-translate-bounding-box", || format!("{} bb {:?} want {:?}", op, out.bb, want_bb));
